@@ -121,6 +121,8 @@ type gen struct {
 	have map[Key]bool
 }
 
+var aftTypeNums = []int{1, 2, 3, 4, 5, 6}
+
 var (
 	v4Prefixes = []string{"1.0.0.0/8", "10.1.0.0/16", "192.0.2.0/24", "198.51.100.7/32"}
 	v6Prefixes = []string{"2001:db8::/32", "2001:db8:1::/48", "::/0"}
@@ -441,7 +443,7 @@ func genG1(seed uint64, prop string) *Scenario {
 	switch prop {
 	case "C07":
 		cfg.FullPayl = true
-		cfg.GetEvery = 1 + r.IntN(3)
+		cfg.GetEvery = 0
 	case "C16":
 		cfg.Hooks = []string{"post", "both"}[r.IntN(2)]
 		cfg.VRFMode = []string{"opt", "late"}[r.IntN(2)]
@@ -512,6 +514,15 @@ func genG1(seed uint64, prop string) *Scenario {
 				}
 				sc.Steps = append(sc.Steps, g.batchStep(sess, ops[:n]))
 				ops = ops[n:]
+			}
+			if prop == "C07" && g.chance(1, 2) {
+				gs := &GetSpec{AFT: int32(aftTypeNums[g.pick(len(aftTypeNums))])}
+				if g.chance(1, 3) {
+					gs.All = true
+				} else {
+					gs.NI = g.ni()
+				}
+				sc.Steps = append(sc.Steps, Step{T: "get", Get: gs})
 			}
 		}
 	}
